@@ -14,6 +14,8 @@ import PowHsm.Spec.C05
 import PowHsm.Spec.C13
 import PowHsm.Spec.C09
 import PowHsm.Spec.C10
+import PowHsm.Spec.Cert
+import PowHsm.Admin.CertParse
 namespace PowHsm
 namespace Ops
 open Ledger Comm Dongle Spec
@@ -206,6 +208,39 @@ def pinrun (input implOut : Json) : Option (Json × Bool) := do
     (!Spec.C10.recoverable w || Spec.C10.recoverable iw)
   pure (model, ok)
 
+/-- C06 / C07: the chain walk over a parsed certificate with oracle link validities.
+    The oracle requires the implementation's verdicts to be exactly the ones the property
+    prescribes (valid iff every link verifies; first failing element named). -/
+def certvalidate (input implOut : Json) : Option (Json × Bool) := do
+  let root ← (← input.get? "root").asStr?
+  let els ← Spec.CertOps.elemsOfJson (input.get? "elements")
+  let targets ← (← (← input.get? "targets").asArr?).mapM Json.asStr?
+  -- a root of trust that is not a public key at all cannot be constructed: an error, no verdicts
+  let rootOk := (input.get? "root_ok").bind Json.asBool? != some false
+  let model := if rootOk then
+      (Spec.CertOps.validateAll root els targets (input.get? "links") (input.get? "values")).getD (.str "error")
+    else .str "error"
+  pure (model, model.normalize == implOut.normalize)
+
+/-- C16: load a certificate-shaped JSON document, then validate every target with the given
+    link table.  Oracle: a loaded certificate yields a verdict for every target (the walks
+    terminate), equal to the model's, and survives a save / load cycle. -/
+def certload (input implOut : Json) : Option (Json × Bool) := do
+  let doc ← input.get? "doc"
+  let b64 := boolList (input.get? "b64ok")
+  let model : Json :=
+    match CertParse.parse doc b64 with
+    | none => .str "error"
+    | some p =>
+      let root := if p.version == 1 then "s:root" else "s:sgx_root"
+      let verdicts := (Spec.CertOps.validateAll root p.elems p.targets (input.get? "links") none).getD (.str "no-verdict")
+      .obj [("targets", .arr (p.targets.map Json.str)),
+            -- the element dict: one entry per name, in order of first insertion, last value
+            ("elements", .arr ((p.elems.map (·.name)).eraseDups.filterMap fun n =>
+              (Cert.lookup p.elems n).map fun e => .arr [.str e.name, .str e.signedBy])),
+            ("verdicts", verdicts), ("roundtrip", .str "same")]
+  pure (model, model.normalize == implOut.normalize)
+
 def run (op : String) (input implOut : Json) : Option (Json × Bool) :=
   match op with
   | "unsign" => unsign input implOut
@@ -232,6 +267,8 @@ def run (op : String) (input implOut : Json) : Option (Json × Bool) :=
       | _, _ => false) input implOut
   | "bringup" => bringup input implOut
   | "pinrun" => pinrun input implOut
+  | "certvalidate" => certvalidate input implOut
+  | "certload" => certload input implOut
   | _ => none
 
 end Ops
